@@ -36,7 +36,7 @@ class C20(Prop):
     id = 'C20'
     struct_inputs = False          # explanations are keyed by variable name
     reparse_histories = False      # explain() also reports on the assertions of earlier parse() calls on the object
-    rule_added = 'In every run 8 (thorough: 320) long traces of 130..400 samples on which a variable occurring 2-3 times toggles around its thresholds (hundreds of separate intervals per occurrence). 20% of the cases put a temporal operator behind two Boolean filters under a range context (it must explain several disjoint intervals). 12%: a named sub-specification referenced from several places of one assertion (modular specification). 6%: rise/fall over a compound operand behind a window that starts at b >= 1.'
+    rule_added = '10%: every Boolean connective under both polarities over a range (always(not P), eventually(not P), always(P implies r), ... with P = p(x) OP q(y)). In every run 8 (thorough: 320) long traces of 130..400 samples on which a variable occurring 2-3 times toggles around its thresholds (hundreds of separate intervals per occurrence). 20% of the cases put a temporal operator behind two Boolean filters under a range context (it must explain several disjoint intervals). 12%: a named sub-specification referenced from several places of one assertion (modular specification). 6%: rise/fall over a compound operand behind a window that starts at b >= 1.'
     rule = ('random formulas of the fragment the explainer supports (no since/until; arithmetic, predicates, Boolean, '
             'rise/fall, prev/next, bounded and unbounded once/historically/eventually/always; depth<=4; variables '
             'occurring several times) x traces of 2..6 samples on StlDiscreteTimeOfflineSpecification: evaluate(); if '
@@ -262,10 +262,36 @@ class C20(Prop):
         ys = [rng.choice([1.0, 2.0, -1.0, 0.5]) for _ in range(n)]
         return {'formula': f, 'data': {'x': xs, 'y': ys}, 'long': True}
 
+    def gen_polarity(self, rng):
+        """Every Boolean connective under both polarities over a range: `always(not P)`, `eventually(not P)`,
+        `always(P implies r)`, `always(r or not P)`, `not eventually P` with P = p(x) OP q(y) - violated at 0 because P
+        holds (or fails) on a stretch of samples, at some of which only one operand is responsible."""
+        N, V, C = lang.N, lang.V, lang.C
+        o = rng.choice(['and', 'or', 'implies', 'iff', 'xor'])
+        p = N(rng.choice(['geq', 'lt', 'gt', 'leq']), V('x'), C(0.0))
+        q = N(rng.choice(['geq', 'lt', 'gt', 'leq']), V('y'), C(0.0))
+        P = N(o, p, q)
+        if rng.random() < 0.25:
+            P = N('not', P)
+        r = N(rng.choice(['geq', 'lt']), V('z'), C(0.0))
+        n = rng.randint(3, 7)
+        ctxs = [lambda: N('always', N('not', P)), lambda: N('eventually', N('not', P)),
+                lambda: N('always', N('implies', P, r)), lambda: N('always', N('or', r, N('not', P))),
+                lambda: N('not', N('eventually', P)), lambda: N('always', N('not', P), ivl=(0, n - rng.randint(1, 2))),
+                lambda: N('eventually', N('and', N('not', P), r)),
+                lambda: N('eventually', N('historically', N('not', P), ivl=(0, 1)), ivl=(1, n - 1))]
+        f = rng.choice(ctxs)()
+        names = lang.variables(f)
+        vals = [-2.0, -1.0, 1.0, 2.0]
+        data = dict((k, [rng.choice(vals) for _ in range(n)]) for k in names)
+        return {'formula': f, 'data': data}
+
     def gen(self, rng, ctx):
         r = rng.random()
         if r < 0.06:
             return self.gen_edge(rng)
+        if r > 0.9:
+            return self.gen_polarity(rng)
         if r < 0.16:
             return self.gen_shared_name(rng)
         if r < 0.32:
